@@ -6,7 +6,8 @@ Correspondence driver for C18. Input: the traces printed by `harness/h3_backtrac
 * `init <id> ring <params>` — then one line per call made on the real `BacktraceStorage`:
   `cap N => ok`, `st X => ok`, `pr => x1,x2,…` (`-` when the callback was not invoked).
 * `init <id> e2e <params> <level table>` — calls made on real `Logger`s with a recording sink and the
-  `ManualBackendWorker`: `ib L cap Level`, `lg L Level id` / `ld L Level id` (LOG_DYNAMIC), `bt L id`, `fb L`
+  `ManualBackendWorker`: `ib L cap Level`, `lg L Level id` / `ld L Level id` (LOG_DYNAMIC) / `lgx …` (from a short-lived thread),
+  `bt L id` / `btx L id`, `fb L`
   (`=> ok`), and `poll => L:Level:id,…,E,…` (the `write_log` calls and `init_backtrace`-missing errors of that poll).
 
 `<params>` = resetsIndexOnFlush guardsZeroCapacity startsAtIndex clearsOnFlush wrapSlack flushCmp, as extracted.
@@ -157,16 +158,18 @@ def e2eLine (c : Ctx) : List String → Option (Ctx × String × List String)
       let sb' := (specStepEv c1.bt c1.sb (.setFlushLvl i k)).1
       some ({ c1 with queue := c1.queue ++ [.initBt i (nat! cap)], b := b', sb := sb' }, "ok", [])
   | [op, lg, lvl, id] =>
-    if op == "lg" || op == "ld" then
+    if op == "lg" || op == "ld" || op == "lgx" then
       match rank c.table lvl with
       | none => none
       | some k =>
         let (c1, i) := loggerIx c lg
         some ({ c1 with queue := c1.queue ++ [.log i k (nat! id)] }, "ok", [])
     else none
-  | ["bt", lg, id] =>
-    let (c1, i) := loggerIx c lg
-    some ({ c1 with queue := c1.queue ++ [.log i c1.bt (nat! id)] }, "ok", [])
+  | [op, lg, id] =>
+    if op == "bt" || op == "btx" then
+      let (c1, i) := loggerIx c lg
+      some ({ c1 with queue := c1.queue ++ [.log i c1.bt (nat! id)] }, "ok", [])
+    else none
   | ["fb", lg] =>
     let (c1, i) := loggerIx c lg
     some ({ c1 with queue := c1.queue ++ [.flushBt i] }, "ok", [])
